@@ -136,6 +136,14 @@ deriving DecidableEq, Repr
 def authErr (st : UInt8) : Resp :=
   .pairing (encode [(T_SEQUENCE_NUM, [st]), (T_ERROR_CODE, [E_AUTHENTICATION])])
 
+/-- body of the M2 answer: state, `encrypt(PVERIFY_1_NONCE, tlv(mac, sign(sepk ‖ mac ‖ cepk)))`
+    under the pre-session key `hap_hkdf(shared)`, accessory ephemeral public key -/
+def m2Body (C : Crypto) (fresh : Nat) (cpub shared : Bytes) : Bytes :=
+  encode [(T_SEQUENCE_NUM, [2]),
+          (T_ENCRYPTED_DATA, C.aeadEnc (C.hkdf shared) NONCE2
+            (encode [(T_USERNAME, C.mac), (T_PROOF, C.sign C.accSk (C.pubOf fresh ++ C.mac ++ cpub))])),
+          (T_PUBLIC_KEY, C.pubOf fresh)]
+
 /-- `_pair_verify_one`; `fresh` is the name of the key pair `X25519PrivateKey.generate()` returns. -/
 def verifyOne (C : Crypto) (fresh : Nat) (c : Conn) (objs : Items) : Conn × Out :=
   match lookupTag objs T_PUBLIC_KEY with
@@ -144,13 +152,7 @@ def verifyOne (C : Crypto) (fresh : Nat) (c : Conn) (objs : Items) : Conn × Out
     match C.dh fresh cpub with
     | none => (c, ⟨.err500, none⟩)                                 -- ValueError
     | some shared =>
-      let sepk := C.pubOf fresh
-      let proof := C.sign C.accSk (sepk ++ C.mac ++ cpub)
-      let pre := C.hkdf shared
-      let msg := encode [(T_USERNAME, C.mac), (T_PROOF, proof)]
-      ({ c with enc := some ⟨cpub, fresh, shared, pre⟩ },
-       ⟨.pairing (encode [(T_SEQUENCE_NUM, [2]), (T_ENCRYPTED_DATA, C.aeadEnc pre NONCE2 msg),
-                          (T_PUBLIC_KEY, sepk)]), none⟩)
+      ({ c with enc := some ⟨cpub, fresh, shared, C.hkdf shared⟩ }, ⟨.pairing (m2Body C fresh cpub shared), none⟩)
 
 /-- `_pair_verify_two` -/
 def verifyTwo (C : Crypto) (ps : Pairings) (c : Conn) (objs : Items) : Conn × Out :=
@@ -169,7 +171,6 @@ def verifyTwo (C : Crypto) (ps : Pairings) (c : Conn) (objs : Items) : Conn × O
           match lookupTag sub T_USERNAME with
           | none => (c, ⟨.err500, none⟩)                           -- KeyError
           | some uname =>
-            let material := ctx.clientPublic ++ uname ++ C.pubOf ctx.priv
             match C.parseUuid uname with
             | none => (c, ⟨.err500, none⟩)                         -- ValueError
             | some u =>
@@ -181,7 +182,7 @@ def verifyTwo (C : Crypto) (ps : Pairings) (c : Conn) (objs : Items) : Conn × O
                   match lookupTag sub T_PROOF with
                   | none => (c, ⟨authErr 4, none⟩)                 -- KeyError, caught
                   | some proof =>
-                    if C.verify ltpk material proof then
+                    if C.verify ltpk (ctx.clientPublic ++ uname ++ C.pubOf ctx.priv) proof then
                       ({ c with enc := none, verified := true, client := some u },
                        ⟨.pairing (encode [(T_SEQUENCE_NUM, [4])]), some ctx.sharedKey⟩)
                     else (c, ⟨authErr 4, none⟩)                    -- InvalidSignature
